@@ -32,9 +32,20 @@ def load_program(dump=True):
     d = os.environ.get('VERIF_MIR_DIR')
     if d and os.path.exists(os.path.join(d, 'mpd_client.mir')):
         P.mir_files = {c: os.path.join(d, c + '.mir') for c in ('mpd_protocol', 'mpd_client')}
+        P.load(scratch_dir())
     else:
-        P.dump_mir(scratch_dir())
-    P.load(scratch_dir())
+        # each run dumps into its own directory: concurrent checks must not read each other's half-written dumps
+        import tempfile, shutil
+        tmp = tempfile.mkdtemp(prefix='mir-', dir=scratch_dir())
+        try:
+            P.dump_mir(tmp, target=os.path.join(scratch_dir(), 'ws-target'))
+            P.load(tmp)
+            for c, f in list(P.mir_files.items()):          # keep the latest dump for inspection
+                dst = os.path.join(scratch_dir(), c + '.mir')
+                os.replace(f, dst)
+                P.mir_files[c] = dst
+        finally:
+            shutil.rmtree(tmp, ignore_errors=True)
     _PROG = P
     return P
 
